@@ -32,9 +32,9 @@ var repoPkgs = []string{
 
 // files that get statement points (path relative to repo) -> nil = all funcs
 var stmtFiles = map[string][]string{
-	"impl/timecounter.go":                nil,
-	"channels/caches.go":                 nil,
-	"channelmonitor/channelmonitor.go":   nil,
+	"impl/timecounter.go":              nil,
+	"channels/caches.go":               nil,
+	"channelmonitor/channelmonitor.go": nil,
 }
 
 const (
@@ -149,6 +149,7 @@ func rewrite(path string, stmtPoints bool, rel string) (bool, []byte, error) {
 			changed = true
 		}
 	}
+	needCore := false
 	if stmtPoints {
 		cnt := 0
 		for _, d := range f.Decls {
@@ -159,9 +160,16 @@ func rewrite(path string, stmtPoints bool, rel string) (bool, []byte, error) {
 			instrumentBlock(fset, fd.Body, rel, &cnt)
 		}
 		if cnt > 0 {
-			addImport(f, "verifcore", corePath)
-			changed = true
+			needCore = true
 		}
+	}
+	// goroutines started by the library report a panic to the harness instead of killing the worker process
+	if guardGoStmts(fset, f, rel) > 0 {
+		needCore = true
+	}
+	if needCore {
+		addImport(f, "verifcore", corePath)
+		changed = true
 	}
 	if !changed {
 		return false, nil, nil
@@ -172,6 +180,58 @@ func rewrite(path string, stmtPoints bool, rel string) (bool, []byte, error) {
 		return false, nil, err
 	}
 	return true, buf.Bytes(), nil
+}
+
+// guardGoStmts makes every goroutine the file starts recover a panic and hand it to the harness
+// (verifcore.RecoverGoroutine). `go func() {...}()` gets the deferred call prepended to its body; `go f(a, b)`
+// with simple arguments (identifiers, selectors, literals) becomes `go func() { defer ...; f(a, b) }()`.
+func guardGoStmts(fset *token.FileSet, f *ast.File, rel string) int {
+	n := 0
+	simple := func(e ast.Expr) bool {
+		for {
+			switch v := e.(type) {
+			case *ast.Ident, *ast.BasicLit:
+				return true
+			case *ast.SelectorExpr:
+				e = v.X
+			default:
+				return false
+			}
+		}
+	}
+	guard := func(pos token.Pos) ast.Stmt {
+		loc := fmt.Sprintf("goroutine started at %s:%d", rel, fset.Position(pos).Line)
+		return &ast.DeferStmt{Call: &ast.CallExpr{
+			Fun:  &ast.SelectorExpr{X: ast.NewIdent("verifcore"), Sel: ast.NewIdent("RecoverGoroutine")},
+			Args: []ast.Expr{&ast.BasicLit{Kind: token.STRING, Value: strconv.Quote(loc)}},
+		}}
+	}
+	ast.Inspect(f, func(nd ast.Node) bool {
+		g, ok := nd.(*ast.GoStmt)
+		if !ok {
+			return true
+		}
+		if lit, ok := g.Call.Fun.(*ast.FuncLit); ok && len(g.Call.Args) == 0 {
+			lit.Body.List = append([]ast.Stmt{guard(g.Pos())}, lit.Body.List...)
+			n++
+			return true
+		}
+		ok = simple(g.Call.Fun)
+		for _, a := range g.Call.Args {
+			ok = ok && simple(a)
+		}
+		if !ok {
+			return true
+		}
+		orig := g.Call
+		g.Call = &ast.CallExpr{Fun: &ast.FuncLit{
+			Type: &ast.FuncType{Params: &ast.FieldList{}},
+			Body: &ast.BlockStmt{List: []ast.Stmt{guard(g.Pos()), &ast.ExprStmt{X: orig}}},
+		}}
+		n++
+		return true
+	})
+	return n
 }
 
 func addImport(f *ast.File, name, path string) {
